@@ -43,8 +43,10 @@ func c12(r *core.Run) {
 	for _, fn := range p.FuncsIn("pkg/analysis/loop") {
 		core.InstrsOf(fn, func(in ssa.Instruction) {
 			switch x := in.(type) {
-			case *ssa.MapUpdate:
-				if _, ok := core.FieldLoad(x.Map, "Inductions"); ok {
+			case *ssa.Alloc:
+				// the classifier is the function that builds the InductionVariable (it records it itself or
+				// returns it to a caller that does)
+				if strings.HasSuffix(core.Deref(x.Type()).String(), "loop.InductionVariable") {
 					classifier = fn
 				}
 			case *ssa.Store:
@@ -73,7 +75,7 @@ func c12(r *core.Run) {
 			if !ok {
 				return
 			}
-			if _, _, isVS := fieldLoadBy(mu.Map, isValueValueMap); !isVS {
+			if !isValueValueMap(mu.Map.Type()) {
 				return
 			}
 			// value built from an InductionVariable's Start/Step
@@ -111,7 +113,9 @@ func c12(r *core.Run) {
 
 func c12IV(r *core.Run, fn *ssa.Function) {
 	fnm := core.FuncName(fn)
-	var sink *ssa.MapUpdate
+	// the sink: where the induction variable is recorded — the store into Loop.Inductions, or, if the classifier
+	// hands the variable back to its caller, the return of a non-nil *InductionVariable
+	var sink ssa.Instruction
 	core.InstrsOf(fn, func(in ssa.Instruction) {
 		if mu, ok := in.(*ssa.MapUpdate); ok {
 			if _, ok := core.FieldLoad(mu.Map, "Inductions"); ok {
@@ -119,6 +123,19 @@ func c12IV(r *core.Run, fn *ssa.Function) {
 			}
 		}
 	})
+	if sink == nil {
+		for _, ret := range core.Returns(fn) {
+			for _, res := range ret.Results {
+				if strings.HasSuffix(core.Deref(res.Type()).String(), "loop.InductionVariable") && !core.IsNilConst(res) {
+					sink = ret.Instr
+				}
+			}
+		}
+	}
+	if sink == nil {
+		r.Floor("C12.IV", "recording of an induction variable in "+fnm, 0, 1)
+		return
+	}
 	sb := sink.Block()
 	chk := func(name string, atom core.Atom, okMsg, failMsg string) {
 		ok1, n1, path := core.MustPass(fn, sb, atom)
